@@ -47,7 +47,7 @@ def ref_grid_row(ref, alt, major, minor, normal, t, err, density, grid, precisio
                 lp = logc + b * math.log(xi) + (n - b) * math.log(1 - xi)
             else:
                 al, be = xi * precision, precision - xi * precision
-                lp = logc + betaln(al + b, be + n - b) - betaln(al, be)
+                lp = logc + betaln(al + b, be + (n - b)) - betaln(al, be)
             terms.append(-math.log(len(cn)) + lp)
         out[i] = logsumexp(terms)
     return out
@@ -57,11 +57,13 @@ def expected_loaded(rows, has_tc, has_err):
     """rows: list of dicts.  Returns (sorted kept mutation ids, sorted samples, row lookup) per the property statement."""
     usable = [r for r in rows if r["major_cn"] > 0]
     samples = sorted({str(r["sample_id"]) for r in usable})
-    muts = sorted({r["mutation_id"] for r in usable})
+    muts = sorted({r["mutation_id"] for r in rows})
     kept = []
     for m in muts:
-        per = {s: [r for r in usable if r["mutation_id"] == m and str(r["sample_id"]) == s] for s in samples}
-        if all(len(v) == 1 for v in per.values()):
+        # the statement: kept exactly when EVERY sample has EXACTLY ONE row for it, with a positive major copy number
+        # (a zero-copy-number row, a missing row or a second row in any sample drops the mutation entirely)
+        per = {s: [r for r in rows if r["mutation_id"] == m and str(r["sample_id"]) == s] for s in samples}
+        if all(len(v) == 1 and v[0]["major_cn"] > 0 for v in per.values()):
             kept.append(m)
     lookup = {(r["mutation_id"], str(r["sample_id"])): r for r in usable}
     return kept, samples, lookup
@@ -228,6 +230,29 @@ def run(tier="quick", seed=0):
                     problems.append("%s: load_data raised %r" % (label, e))
             if len(problems) > 8:
                 break
+        # corners: identifiers that look like numbers or like missing values are names ("01" is not "1", "NA" is an id, sample "010" sorts before "002"
+        # only as a string); a mutation with a zero-copy-number row AND another row in the same sample is dropped entirely
+        for tag, muts_ids, samples in (("numeric-looking ids", ["1", "01", "NA", "7", "x"], ["010", "002"]), ("zero copy number plus a second row", ["a", "b", "c"], ["S1", "S2"])):
+            cases += 1
+            rows = []
+            for k, m in enumerate(muts_ids):
+                for s_ in samples:
+                    rows.append({"mutation_id": m, "sample_id": s_, "ref_counts": 20 + k, "alt_counts": 5 + 2 * k, "major_cn": 2, "minor_cn": 1, "normal_cn": 2})
+            if tag.startswith("zero"):
+                extra = dict(rows[0])
+                extra["major_cn"], extra["minor_cn"] = 0, 0
+                rows.append(extra)  # mutation "a" now has two rows in S1, one of them with major copy number zero
+            kept, exp_samples, lookup = expected_loaded(rows, False, False)
+            lookup = {(r["mutation_id"], str(r["sample_id"])): r for r in rows if r["major_cn"] > 0}
+            for oi, order in enumerate((list(range(len(rows))), list(range(len(rows)))[::-1])):
+                path = os.path.join(tmp, "corner.tsv")
+                write_table(rows, path, "\t", order)
+                label = "corner '%s' (order %d)" % (tag, oi)
+                try:
+                    data, smp = quiet_load(path, np.random.default_rng(0), 0.0001, 0.4, False, cluster_file=None, density="binomial", grid_size=11, outlier_prob=0.0, precision=37.5)
+                    problems += compare(data, smp, kept, exp_samples, lookup, "binomial", 11, 37.5, False, False, label)
+                except Exception as e:  # noqa
+                    problems.append("%s: load_data raised %r" % (label, e))
         # major < minor is rejected with an error
         cases += 1
         rows = base_rows(rng, 2, ["s"], False, False)
@@ -277,6 +302,20 @@ def run_pmf(tier="quick", seed=0):
                             problems.append("likelihood does not sum to one over alternate counts: %s n=%d cn=(%d,%d,%d) t=%s e=%s: log-sum %s" % (density, n, major, minor, normal, t, err, tot))
                     if len(problems) > 6:
                         return {"cases": cases, "problems": problems}
+    # corner of the stated window: tiny precision * error rate with all reads variant (the second beta parameter must not be rounded away)
+    for err, prec, n in ((1e-9, 1e-3, 100), (1e-9, 1.0, 100), (1e-7, 1.0, 2000)):
+        cases += 1
+        cn, mu, log_pi = get_major_cn_prior(1, 0, 2, error_rate=err)
+        tot = np.full(3, -np.inf)
+        for b in range(n + 1):
+            g = DataPoint(["s"], [SampleDataPoint(n - b, b, cn, mu, log_pi, 1.0)]).to_likelihood_grid("beta-binomial", 3, precision=prec)[0]
+            tot = np.logaddexp(tot, g)
+            if b == n:
+                ref = ref_grid_row(0, n, 1, 0, 2, 1.0, err, "beta-binomial", 3, prec)
+                if not np.allclose(g, ref, rtol=1e-7, atol=1e-7):
+                    problems.append("grid differs from the PyClone mixture: beta-binomial all %d reads variant, error rate %g, precision %g: by %.3g" % (n, err, prec, np.abs(g - ref).max()))
+        if np.abs(tot).max() > 1e-6:
+            problems.append("likelihood does not sum to one over alternate counts: beta-binomial n=%d error rate %g precision %g: log-sum %s" % (n, err, prec, tot))
     # extreme depth: finite and equal to the reference
     for n, b in ((100000, 30000), (2000000, 5), (50000, 0)):
         cases += 1
